@@ -9,6 +9,11 @@ pub struct Server {
 }
 
 pub fn start_server() -> Server {
+  start_server_on(None)
+}
+
+/// The service started on a directory of model files (`dmntk srv -D dir`): it loads and deploys them before it listens.
+pub fn start_server_on(dir: Option<String>) -> Server {
   // pick a free loopback port
   let port = {
     let l = std::net::TcpListener::bind("127.0.0.1:0").expect("bind");
@@ -16,7 +21,7 @@ pub fn start_server() -> Server {
   };
   let p = port;
   std::thread::spawn(move || {
-    let _ = actix_web::rt::System::new("dmntk-verif").block_on(dmntk_server::start_server(Some("127.0.0.1".to_string()), Some(p.to_string()), None));
+    let _ = actix_web::rt::System::new("dmntk-verif").block_on(dmntk_server::start_server(Some("127.0.0.1".to_string()), Some(p.to_string()), dir));
   });
   // wait until it accepts connections
   for _ in 0..200 {
